@@ -385,7 +385,7 @@ SPEC = {
              'an own depth-first enumeration of the same canonical space must find nothing (spaces above the bound are inconclusive). '
              'Non-trivial: found with >=2 gates, or NoSolution confirmed over >=100 candidates.'),
     'assumptions': ['pysat replaced by a z3-backed stand-in: SAT models re-checked, UNSAT answers cross-checked by the reference enumeration'],
-    'subs': [Sub('synthesis', cases, check_synthesis, {'quick': 2400, 'thorough': 24000}, shrink_quick=False)],
+    'subs': [Sub('synthesis', cases, check_synthesis, {'quick': 2400, 'thorough': 72000}, shrink_quick=False)],
     'required_classes': {'synthesis': ['found', 'no_solution_confirmed', 'fix:first', 'fix:second', 'fix:both', 'forbid_wire',
                                        'basis:custom', 'basis:FULL', 'basis:AIG', 'time_limit', 'invalid_constraint_rejected']},
 }
